@@ -185,6 +185,36 @@ example : ∃ r1 r2, r1 ∈ table ∧ r2 ∈ table ∧ r1.loc ∉ chanSync ∧ c
    ⟨"task.Compiler.dynamicCache", "task:Compiler.HandleDynamicVar", "c", true, ["task.Compiler.muDynamicCache"]⟩,
    by decide, by decide, by decide, by decide, by decide, by decide, by decide⟩
 
+/-- the skeleton of `startExecution` as a program of the model: thread 0 registers its execution under the
+dedup mutex, runs it, writes the outcome, returns it (a read) and closes `done` (deferred: last); threads 1
+and 2 find the execution under the mutex, wait for `done` and read the outcome -/
+def startExecutionSkeleton : Prog String String String :=
+  [[.lock "task.Executor.executionHashesMutex", .access "task.Executor.executionHashes" false,
+    .access "task.Executor.executionHashes" true, .unlock "task.Executor.executionHashesMutex",
+    .access "task.execution.err" true, .access "task.execution.err" false, .close "done"],
+   [.lock "task.Executor.executionHashesMutex", .access "task.Executor.executionHashes" false,
+    .unlock "task.Executor.executionHashesMutex", .recv "done", .access "task.execution.err" false],
+   [.lock "task.Executor.executionHashesMutex", .access "task.Executor.executionHashes" false,
+    .unlock "task.Executor.executionHashesMutex", .recv "done", .access "task.execution.err" false]]
+
+/-- non-vacuity of `C18_no_race_state_table`, channel part included: the skeleton's access positions are rows
+of the real table, its `chanSync` location is published through `done` by thread 0, so NO interleaving of it
+reaches a race state — while waiters and the registered execution do interleave -/
+theorem startExecution_skeleton_no_race (s : State String String) (hr : Reach startExecutionSkeleton s) :
+    ¬ RaceState startExecutionSkeleton s := by
+  apply C18_no_race_state_table startExecutionSkeleton _ (coveredB_sound _ _ (by decide)) _ s hr
+  · intro b hb
+    have : startExecutionSkeleton.all wfBody = true := by decide
+    exact wfBody_spec b ((List.all_eq_true.mp this) b hb)
+  · intro l hl
+    rw [chanSync_is] at hl
+    simp only [List.mem_singleton] at hl
+    subst hl
+    exact ⟨"done", 0, chanSyncedB_sound _ _ _ _ (by decide)⟩
+
+example : runnable startExecutionSkeleton [0, 0, 0, 0, 1, 1, 1, 2, 2, 0, 2, 0, 0, 1, 2, 2, 1] = true := by decide
+example : runnable startExecutionSkeleton [1, 1, 1, 1] = false := by decide   -- a waiter blocks until the close
+
 /-- a violating table IS racy in the model: the unlocked write of the r7 mutant next to the unlocked read -/
 theorem C18_unlocked_rows_race :
     ∃ s, Reach (rowProg [⟨"task.Executor.fuzzyModel", "task:Executor.setupFuzzyModel", "e", true, []⟩,
